@@ -8,8 +8,8 @@ Parts:
                        find_attribute (find_case_ok)
   S       `spelling` : random base documents over all presentation properties x spelling rewrites
                        -> Tree::to_string compared token-wise (numbers within 1e-4 relative)
-Noise floor measured on 6000 pairs (seeds 1,2,12345, thorough): largest relative difference of a number
-token 3.1e-7 (unit conversions through cm/mm/pt in f32); the tolerance is 1e-4.
+Noise floor measured on 18 724 pairs (thorough tier, seed 1) + 3 x 1 200 (quick, seeds 1, 2, 12345): largest relative
+difference of a number token 3.81e-6 (unit conversions through cm/mm/pt in f32, text outlines); the tolerance is 1e-4.
 """
 import copy
 import json
@@ -41,18 +41,27 @@ class Tables:
         def rd(rel):
             with open(os.path.join(vlib.REPO, rel), encoding='utf-8') as f:
                 return f.read()
-        t = gen_svgtree.parse_tables(rd)
+        # non-strict: when an anchor is lost (tie broken, reported by the translator) the generators keep working on
+        # what is still readable plus the last-known values below, so that a failing input can still be searched for
+        t = gen_svgtree.parse_tables(rd, strict=False)
         self.t = t
+        self.errors = t['errors']
         self.aname2ctor = dict(t['anames'])
         self.ctor2aname = {c: n for n, c in t['anames']}
         self.ename2ctor = dict(t['enames'])
-        self.presentation = [self.ctor2aname[c] for c in t['is_presentation']]
-        self.allows_inherit = set(self.ctor2aname[c] for c in t['allows_inherit_value'])
-        self.non_inheritable = set(self.ctor2aname[c] for c in t['is_non_inheritable'])
-        self.style_only = set(self.ctor2aname[c] for c in t['style_only'])
-        self.css_only_values = set(t['css_only_values'])
-        self.css_only_attr = self.ctor2aname[t['css_only_value_attr']]
-        self.defaults = {self.ctor2aname[a]: v for a, v in t['inherit_default']}
+
+        def names(key, fallback):
+            if key in t:
+                return [self.ctor2aname[c] for c in t[key]]
+            return [n for n in fallback if n in self.aname2ctor]
+        self.presentation = names('is_presentation', sorted(POOLS))
+        self.allows_inherit = set(names('allows_inherit_value', INHERIT_PROPS))
+        self.non_inheritable = set(names('is_non_inheritable', sorted(SPEC_NONINHERITED)))
+        self.style_only = set(names('style_only', ['mix-blend-mode', 'isolation', 'font-kerning']))
+        self.css_only_values = set(t.get('css_only_values', ['smooth', 'high-quality', 'crisp-edges', 'pixelated']))
+        self.css_only_attr = self.ctor2aname.get(t.get('css_only_value_attr', 'ImageRendering'), 'image-rendering')
+        self.defaults = ({self.ctor2aname[a]: v for a, v in t['inherit_default']} if 'inherit_default' in t
+                         else dict(SPEC_INITIAL))
 
     def A(self, name):
         return 'A_' + self.aname2ctor[name]
@@ -663,6 +672,8 @@ SPEC_INITIAL = {'image-rendering': 'auto', 'shape-rendering': 'auto', 'text-rend
                 'stroke-linejoin': 'miter', 'stroke-miterlimit': '4', 'stroke-width': '1', 'text-anchor': 'start',
                 'visibility': 'visible', 'writing-mode': 'lr-tb'}
 # `overflow` has a user-agent default of `hidden` on these (SVG UA style sheet), so `visible` is not a no-op there
+SPEC_STYLE_ONLY = ['mix-blend-mode', 'isolation', 'font-kerning']
+SPEC_CSS_ONLY_VALUES = ['smooth', 'high-quality', 'crisp-edges', 'pixelated']
 OVERFLOW_UA_HIDDEN = {'svg', 'symbol', 'marker', 'pattern', 'image'}
 PNG = ('data:image/png;base64,iVBORw0KGgoAAAANSUhEUgAAAAIAAAACCAIAAAD91JpzAAAAFklEQVR4AWP8z8DAwMDAxMDAwMDAAAANHQEDasKb6QAAAABJRU5ErkJggg==')
 
@@ -825,6 +836,10 @@ class Oracle:
             ps = set(d['p'] for d in e.decls)
             for p in ps:
                 ds = [d for d in e.decls if d['p'] == p]
+                if any(d['role'] == 'ignored' for d in ds):
+                    if len(ds) != 1:
+                        return False
+                    continue
                 ws = [d for d in ds if d['role'] == 'win']
                 if len(ws) != 1:
                     return False
@@ -924,32 +939,63 @@ class Oracle:
         return 'css-' + sel
 
     def rw_shadow(self, root):
+        """add a declaration of another value that loses against the element's winner"""
         rng = self.rng
         cands = [(e, d) for e in els(root) for d in e.decls if d['role'] == 'win']
         if not cands:
             return None
         e, w = rng.choice(cands)
         p = w['p']
+        if w['where'] == 'attr' and w['sel'] not in ('type', 'univ'):
+            w['where'] = rng.choice(['style', 'css'])       # make room below the winner
+            w['sel'] = rng.choice(['id', 'class'])
         others = [v for v in self.pool(p) if v != w['v']]
         if p in INHERIT_PROPS and rng.below(3) == 0:
             others = ['inherit']
         if not others:
             return None
-        lo = self.new_decl(p, rng.choice(others), role='lose', cv=None)
-        lo['where'] = rng.choice(['attr', 'css', 'css', 'style'])
-        lo['sel'] = rng.choice(['id', 'class'])
-        lo['sheet'] = rng.choice(['doc', 'inj'])
-        e.decls.append(lo)
-        return 'shadow' + ('-inherit' if lo['v'] == 'inherit' else '')
+        tag = None
+        for _ in range(1 + rng.below(2)):
+            lo = self.new_decl(p, rng.choice(others), role='lose', cv=None)
+            spots = [('attr', 'id', 'doc'), ('css', 'class', 'inj'), ('css', 'class', 'doc'), ('css', 'id', 'inj'),
+                     ('css', 'id', 'doc'), ('style', 'id', 'doc')]
+            spots = [sp for sp in spots if (sp[0] != 'attr' or self.attr_ok(p, lo['v']))]
+            used = set((d['where'], d['sel'] if d['where'] == 'css' else 'id', d['sheet'] if d['where'] == 'css' else 'doc')
+                       for d in e.decls if d['p'] == p)
+            ok = []
+            for sp in spots:
+                lo.update(where=sp[0], sel=sp[1], sheet=sp[2])
+                if sp not in used and (w['imp'] or self.rank(lo) < self.rank(w)):
+                    ok.append(sp)
+            if not ok:
+                break
+            sp = rng.choice(ok)
+            lo.update(where=sp[0], sel=sp[1], sheet=sp[2])
+            e.decls.append(lo)
+            tag = 'shadow' + ('-inherit' if lo['v'] == 'inherit' else '')
+        return tag
 
     def rw_inherit(self, root):
         rng = self.rng
-        for _ in range(20):
-            e = rng.choice(list(els(root)))
+        want_source = rng.below(3) > 0
+        allv = list(els(root))
+        for _ in range(60):
+            e = rng.choice(allv)
             p = rng.choice(INHERIT_PROPS)
+            if want_source:
+                # pick a property some ancestor (or the parent) declares
+                if rng.below(2) and e.parent is not None:
+                    ps = sorted(set(d['p'] for d in e.parent.decls if d['p'] in INHERIT_PROPS and d['p'] in SPEC_NONINHERITED))
+                else:
+                    ps = sorted(set(d['p'] for a in e.ancestors() for d in a.decls if d['p'] in INHERIT_PROPS))
+                if not ps:
+                    continue
+                p = rng.choice(ps)
             if any(d['p'] == p for d in e.decls):
                 continue
             src = self.inherit_source(e, p)
+            if want_source and src is None:
+                continue
             if src is not None and (src['v'] == 'inherit' or src['cv'] is None):
                 continue
             if p not in SPEC_NONINHERITED:
@@ -984,6 +1030,23 @@ class Oracle:
             d['sel'] = rng.choice(['id', 'class'])
             e.decls.append(d)
             return 'default'
+        return None
+
+    def rw_ignored_attr(self, root):
+        """a style-only property (or a CSS-only image-rendering value) written as an XML attribute is ignored"""
+        rng = self.rng
+        for _ in range(20):
+            e = rng.choice(list(els(root)))
+            if rng.below(3) == 0:
+                p, v = 'image-rendering', rng.choice(SPEC_CSS_ONLY_VALUES)
+            else:
+                p = rng.choice(SPEC_STYLE_ONLY)
+                v = rng.choice([x for x in self.pool(p) if x not in ('normal', 'auto')] or self.pool(p))
+            if any(d['p'] == p for d in e.decls):
+                continue
+            d = dict(p=p, v=v, cv=None, where='attr', sel='id', imp=False, sheet='doc', role='ignored')
+            e.decls.append(d)
+            return 'ignored-attr'
         return None
 
     def rw_unit(self, root, dpi):
@@ -1027,7 +1090,7 @@ class Oracle:
         return 'attr-order'
 
     REWRITES = ['move-attr', 'move-style', 'move-css-id', 'move-css-class', 'move-css-type', 'important', 'css-univ',
-                'css-type-all', 'shadow', 'inherit', 'default', 'unit', 'notation', 'attr-order', 'injected']
+                'css-type-all', 'shadow', 'inherit', 'default', 'unit', 'notation', 'attr-order', 'injected', 'ignored-attr']
 
     def apply(self, root, name, dpi):
         if name.startswith('move-'):
@@ -1046,6 +1109,8 @@ class Oracle:
             return self.rw_default(root)
         if name == 'unit':
             return self.rw_unit(root, dpi)
+        if name == 'ignored-attr':
+            return self.rw_ignored_attr(root)
         if name == 'notation':
             return self.rw_notation(root)
         if name == 'attr-order':
@@ -1248,7 +1313,7 @@ def run_spelling(ctx, binp, T, n_base, n_comp, search=False):
         except (TypeError, ValueError):
             ja, jb = {'error': 'unparsable'}, {'error': 'unparsable'}
         replay = dict(op='tostring', dpi=dpi, canonical=cd, variant=vd, injected_css=inj, rewrites=tags)
-        for t in tags:
+        for t in ([cls] if cls else tags):
             hist[t] = hist.get(t, 0) + 1
         if 's' not in ja or 's' not in jb:
             if ja.get('error') and ja.get('error') == jb.get('error'):
@@ -1290,13 +1355,13 @@ def run_spelling(ctx, binp, T, n_base, n_comp, search=False):
 def model_search(ctx, T):
     """When a proof or a tie broke: evaluate the boolean checkers of the table theorems on every attribute and turn a
     failing attribute into a document pair."""
-    body = ("Eval vm_compute in (map AId_idx (filter (fun a => negb (noninherit_entry_ok a && initial_entry_ok a && "
+    body = ("Eval vm_compute in (map AId_idx (filter (fun a => negb (noninherit_entry_ok a && initial_entry_ok a && style_only_entry_ok a && "
             "default_entry_ok a && class_entry_ok a)) all_AId)).\n")
     rc, out = ctx.coq_eval('search_tables', body, ['Model.Base', 'Gen.SvgTables', 'Model.Cascade', 'Proofs.Cascade'])
     bad = ctx.parse_N_list(out) if rc == 0 else None
     if not bad:
         # Proofs.Cascade itself may be what broke: use the model only
-        body = ("Eval vm_compute in (map AId_idx (filter (fun a => negb (noninherit_entry_ok a && initial_entry_ok a)) all_AId)).\n")
+        body = ("Eval vm_compute in (map AId_idx (filter (fun a => negb (noninherit_entry_ok a && initial_entry_ok a && style_only_entry_ok a)) all_AId)).\n")
         rc, out = ctx.coq_eval('search_tables2', body, ['Model.Base', 'Gen.SvgTables', 'Model.Cascade'])
         bad = ctx.parse_N_list(out) if rc == 0 else None
     names = []
@@ -1314,6 +1379,12 @@ def table_witness_pairs(names):
         v = [x for x in vals if x not in ('none', 'auto', 'normal', 'inherit')]
         v = v[0] if v else vals[0]
         shape = '<path id="p" %s d="M 10 10 L 90 10 L 50 80 Z" stroke="blue"/>'
+        if p in SPEC_STYLE_ONLY:
+            # the attribute spelling must be ignored
+            for val in POOLS.get(p, GENERIC_POOL):
+                a = '<svg %s width="100" height="100"><g id="a"><path id="q" d="M 0 0 L 50 50 L 0 50 Z"/><g id="b">%s</g></g></svg>' % (NS, shape % '')
+                b = a.replace('<g id="b">', '<g id="b" %s="%s">' % (p, val))
+                out.append((p, a, b))
         for outer, inner in ((' %s="%s"' % (p, v), ''), ('', ' %s="%s"' % (p, v)), ('', '')):
             a = '<svg %s width="100" height="100"><g id="a"%s><g id="b"%s>%s</g></g></svg>' % (NS, outer, inner, shape % '')
             b = '<svg %s width="100" height="100"><g id="a"%s><g id="b"%s>%s</g></g></svg>' % (
@@ -1344,8 +1415,12 @@ def run(ctx):
     broken = [b for b in ctx.translate() if b['name'] in MY_TIES or b['kind'] in ('translator',)]
     for b in broken:
         ctx.log("broken tie relevant to C09: %s" % b)
-    res = ctx.coq_props()
+    res = ctx.coq_props(extra_targets=['Model/Corr.v'])
     proof_ok = res['ok'] and not broken
+    if not quick and res['ok'] and hasattr(ctx, 'coqchk'):
+        if not ctx.coqchk():
+            ctx.violation("coqchk rejects the compiled C09 development or reports an unexpected axiom",
+                          dict(coqchk=ctx.cov.get('coqchk')), found_input=False)
     binp, blog = ctx.harness('release')
     if binp is None:
         ctx.violation("harness does not build against the current tree (correspondence cannot run)",
@@ -1360,14 +1435,18 @@ def run(ctx):
 
     model_ok = True
     if res['ok'] or 'Model/Cascade.v' not in res['failed']:
-        model_ok = run_cascade(ctx, binp, T, 150 if quick else 1200)
-        model_ok = run_find_attr(ctx, binp, T, 100 if quick else 800) and model_ok
+        model_ok = run_cascade(ctx, binp, T, 400 if quick else 2500)
+        model_ok = run_find_attr(ctx, binp, T, 250 if quick else 1500) and model_ok
     nviol_before = len(ctx.violations)
     if quick and proof_ok:
-        run_spelling(ctx, binp, T, 28, 6)
+        run_spelling(ctx, binp, T, 70, 8)
     else:
-        run_spelling(ctx, binp, T, 160 if proof_ok else 120, 12)
+        run_spelling(ctx, binp, T, 600 if proof_ok else 150, 15)
 
+    if not model_ok and not ctx.violations:
+        ctx.violation("the cascade / find-attr correspondence could not be evaluated (model does not compile or the harness "
+                      "output is unusable): the hand model is no longer tied to the implementation",
+                      dict(failed_files=res['failed'], log_tail=res['log'][-2000:]), found_input=False)
     if not proof_ok:
         found = bool(ctx.violations)
         names = model_search(ctx, T)
@@ -1386,8 +1465,9 @@ def run(ctx):
                 if 's' in ja and 's' in jb:
                     eq, why, _ = compare_strings(ja['s'], jb['s'])
                     if not eq:
-                        ctx.violation("the class / default table entry of `%s` contradicts the specification's property table: "
-                                      "`inherit` does not resolve to the value written out: %s" % (p, why),
+                        ctx.violation("the class / default / style-only table entry of `%s` contradicts the property table the theorems are "
+                                      "stated against; the witness documents (inherit vs the value written out, or an attribute "
+                                      "spelling that must be ignored) differ: %s" % (p, why),
                                       dict(op='tostring', canonical=c, variant=b, property=p, failed=res['failed'], ties=broken))
                         found = True
                         break
